@@ -65,8 +65,9 @@ static int unambiguous(const econf_file *kf, const w_ent *e, char d, char c)
   }
   if (l0) {
     if (is_blank(v[0]) || is_blank(v[l0 - 1]) || v[0] == d) return 0;
-    for (size_t i = 0; i < l0; i++) if (v[i] == c || v[i] == '"' || (unsigned char)v[i] < 0x20 || (unsigned char)v[i] > 0x7e) return 0;
-    if (v[0] == '[' && 0) return 0;
+    int nq = 0;
+    for (size_t i = 0; i < l0; i++) { if (v[i] == '"') { nq++; continue; } if (v[i] == c || (unsigned char)v[i] < 0x20 || (unsigned char)v[i] > 0x7e) return 0; }
+    if (nq > 1 || (nq == 1 && (v[0] == '"' || nl))) return 0;        /* a single quote sign inside a one-line value (27") is ordinary text */
   }
   while (nl) {
     const char *p = nl + 1;
@@ -164,7 +165,7 @@ static int roundtrip(econf_file *kf, char d, char c, const char *sig)
 }
 
 /* ------------------------------------------------------------------ mode 0 */
-static const char *C07_START = "# c1\nx=\"q # s\" # tc\nw=1 # t2\nv=\"r;s\"\n[A]\n# c2\n# c3\ny=1\n  c\nz=\" q \"\n";   /* v: quoted because of the OTHER comment character */
+static const char *C07_START = "# c1\nx=\"q # s\" # tc\nw=1 # t2\nv=\"r;s\"\nd = 27\" # inch\n[A]\n# c2\n# c3\ny=1\n  c\nz=\" q \"\n";   /* d: a lone quote (inch sign) in front of a trailing comment */   /* v: quoted because of the OTHER comment character */
 static econf_file *c07_replay(const bfs_hist *h)
 {
   econf_file *kf = NULL; econf_err rc; e2_model m; memset(&m, 0, sizeof m);
